@@ -159,6 +159,55 @@ def command_property(prop, tier, seed, selkey=None, level="proof"):
                                distinct_nontrivial=prev.get("distinct_nontrivial", 0) + part["distinct_nontrivial"], failures=prev.get("failures", 0) + ifails)
         else:
             rep.bounded = dict(part, label="bounded (never counted as proved)")
+    if prop == "C05":
+        # `exactly the shape of its inputs`: inputs of different shapes (also differing only by length-1 axes) leave no admissible result but a rejection
+        t1 = time.time()
+        scases = cmdprops.shape_confusion_cases(repo, classes, [n for n in cmdprops.ALL_DATA if n in classes], tier, seed)
+        souts = replay.run_real(scases, repo_root=root)
+        sfails = 0
+        for c, o in zip(scases, souts):
+            bad = cmdprops.judge_shape_confusion(c, o)
+            if any(b[0] == "harness-error" for b in bad):
+                rep.errors.append("shape battery: %s" % (bad[0][1],))
+            elif bad:
+                sfails += 1
+                rep.violations.append({"obligation": "%s::%s.execute/bounded:shape-of-every-input" % (classes[c["class"]].module.relpath, c["class"]),
+                                       "function": "%s::%s.execute" % (classes[c["class"]].module.relpath, c["class"]), "how": "bounded-concrete", "case": c,
+                                       "real": o.get("result"), "violated": ["shape"], "violated_detail": bad, "confirmed": True})
+        part = {"name": "shape-of-every-input", "evaluations": len(scases), "distinct_nontrivial": len(scases), "failures": sfails, "wall_s": round(time.time() - t1, 1),
+                "rule": "every command with two or more data inputs, 12 pairs of different shapes in both roles (length-1 axes added or dropped, transposed, reshaped, "
+                        "different sizes): it raises or its result has the shape of every input"}
+        prev = rep.bounded
+        if prev:
+            rep.bounded = dict(prev, parts=(prev.get("parts") or [dict(prev, name="per-command")]) + [part], evaluations=prev.get("evaluations", 0) + part["evaluations"],
+                               distinct_nontrivial=prev.get("distinct_nontrivial", 0) + part["distinct_nontrivial"], failures=prev.get("failures", 0) + sfails)
+        else:
+            rep.bounded = dict(part, label="bounded (never counted as proved)")
+    if prop in ("C06", "C07"):
+        # `results are invariant under reordering of inputs`, on the real commands over shared input objects (the lemmas above prove it of the contracts)
+        t1 = time.time()
+        names_r = cmdprops.FUZZY_OPERATORS if prop == "C06" else cmdprops.ARITH
+        rcases = cmdprops.reorder_cases(repo, classes, [n for n in names_r if n in classes], tier, seed)
+        routs = replay.run_real(rcases, repo_root=root)
+        rfails = 0
+        for c, o in zip(rcases, routs):
+            bad = cmdprops.judge_reorder(c, o)
+            if any(b[0] == "harness-error" for b in bad):
+                rep.errors.append("reorder battery: %s" % (bad[0][1],))
+            elif bad:
+                rfails += 1
+                rep.violations.append({"obligation": "%s::%s.execute/bounded:order-of-inputs" % (classes[c["class"]].module.relpath, c["class"]),
+                                       "function": "%s::%s.execute" % (classes[c["class"]].module.relpath, c["class"]), "how": "bounded-concrete", "case": c,
+                                       "real": {"listed": o.get("result"), "reordered": o.get("reordered")}, "violated": [b[0] for b in bad], "violated_detail": bad, "confirmed": True})
+        part = {"name": "order-of-inputs", "evaluations": 2 * len(rcases), "distinct_nontrivial": len(rcases), "failures": rfails, "wall_s": round(time.time() - t1, 1),
+                "rule": "every list-input command over shared input objects (2-5 layers, same shapes), evaluated in the listed order and in a random or reversed "
+                        "permutation with the weights moved along (first weight 1 in every other case); shape, missing cells and values (rel. 1e-9) must agree"}
+        prev = rep.bounded
+        if prev:
+            rep.bounded = dict(prev, parts=(prev.get("parts") or [dict(prev, name="per-command")]) + [part], evaluations=prev.get("evaluations", 0) + part["evaluations"],
+                               distinct_nontrivial=prev.get("distinct_nontrivial", 0) + part["distinct_nontrivial"], failures=prev.get("failures", 0) + rfails)
+        else:
+            rep.bounded = dict(part, label="bounded (never counted as proved)")
     if prop == "C09":
         # the writers are consumers too: their frame obligations (proved on the real bodies) belong to this property
         try:
